@@ -148,8 +148,31 @@ class ConfProxy(object):
         return getattr(object.__getattribute__(self, '_real'), name)
 
 
+_CLASS_STATE = {}
+
+
+def _reset_class_state():
+    """Every World is a fresh process as far as the session classes go: mutable class-level attributes (state that all
+    instances share) are restored to what they were at import, so nothing leaks from one explored path into the next.
+    Within one path they are shared exactly as in the real process."""
+    import copy
+    from yabgp.core.factory import BGPPeering, BGPFactory
+    from yabgp.core.protocol import BGP
+    from yabgp.core.fsm import FSM
+    from yabgp.core.timer import BGPTimer
+    for cls in (BGPPeering, BGPFactory, BGP, FSM, BGPTimer):
+        for k, v in list(cls.__dict__.items()):
+            if isinstance(v, (dict, list, set)) and not k.startswith('__'):
+                key = (cls.__name__, k)
+                if key not in _CLASS_STATE:
+                    _CLASS_STATE[key] = copy.deepcopy(v)
+                else:
+                    setattr(cls, k, copy.deepcopy(_CLASS_STATE[key]))
+
+
 class World(object):
     def __init__(self, cfgd=None):
+        _reset_class_state()
         c = dict(DEFAULT_CFG)
         c.update(cfgd or {})
         self.cfg = c
@@ -336,7 +359,7 @@ def split_types(data):
 
 
 def in_state(state, cfgd=None, hold=None, now=0, allow_auto=True, counters=None, closing=False, old_closing=False,
-             pending_attempt=False):
+             pending_attempt=False, old_closed=False):
     """Place the real objects in `state` satisfying the shared invariant (DESIGN app. B):
        Idle(auto): idle-hold armed;  Idle(stopped): nothing armed
        Connect: one connector connecting, connect-retry armed
@@ -404,6 +427,24 @@ def in_state(state, cfgd=None, hold=None, now=0, allow_auto=True, counters=None,
         w.reactor.connectors.insert(0, c_old)
         if state not in (IDLE, CONNECT):
             f.protocol, w.peering.estab_protocol = cur_p, cur_estab
+        w.peering.connector = cur_conn
+    if old_closed:
+        # an earlier connection of this peer that is completely over (connectionLost delivered): the FSM keeps
+        # pointing at its protocol object until the next connection is built
+        cur_p, cur_estab, cur_conn = f.protocol, w.peering.estab_protocol, getattr(w.peering, 'connector', None)
+        c_old = w.put_connected()
+        c_old.state = 'disconnected'
+        c_old.transport.connected = 0
+        c_old.transport.disconnecting = 0
+        c_old.protocol.disconnected = True
+        c_old.protocol.msg_sent_stat['Opens'] = 1
+        w.dead_connector = c_old
+        w.reactor.connectors.remove(c_old)
+        w.reactor.connectors.insert(0, c_old)
+        if state not in (IDLE, CONNECT):
+            f.protocol, w.peering.estab_protocol = cur_p, cur_estab
+        else:
+            w.peering.estab_protocol = None
         w.peering.connector = cur_conn
     if counters:
         p = w.fsm.protocol
